@@ -254,6 +254,19 @@ FLAG_PROGRAMS = [
     f"[{FLAG}] = [FALSE]",
     f"{FLAG} += 1",
     f"{FLAG} -= 1",
+    # destructuring with several targets, the flag in either position,
+    # right-hand sides of every length
+    f"def a = 1; [a, {FLAG}] = [1, FALSE]",
+    f"def a = 1; [{FLAG}, a] = [FALSE, 1]",
+    f"def a = 1; [a, {FLAG}] = [1]",
+    f"def a = 1; def b = 2; [a, b, {FLAG}] = [1, 2, FALSE]",
+    f"def a = 1; def b = 2; [a, {FLAG}, b] = [1, FALSE, 2]",
+    f"def a = 1; [a, {FLAG}] = <<a => 1, {FLAG} => FALSE>>",
+    f"def a = 1; [a, {FLAG}] = <<<1, FALSE>>>",
+    f"def [a, {FLAG}] = [1, FALSE]; [a, {FLAG}] = [1, FALSE]",
+    f"for [a, {FLAG}] in [[1, FALSE]] do require OS unqualified end",
+    f"for {FLAG} in [FALSE] do require OS unqualified; require IO unqualified end",
+    f"[x for {FLAG} in [FALSE]]",
     f"def {FLAG} = FALSE; {FLAG} = FALSE",
     f"eval('{FLAG} = FALSE')",
     f"eval(parse('{FLAG} = FALSE'))",
